@@ -686,7 +686,7 @@ class PathUnit:
                 rep.obligations += 1
                 rep.inconclusive.append("%s/%s: %s" % (self.name, e.name, r["note"]))
                 print("INCONCLUSIVE %s/%s (%s)" % (self.name, e.name, r["note"][:200]))
-            if e.witness and r["status"] == "held" and "end" not in r["reach"]:
+            if e.witness and r["status"] == "held" and not any(l == "end" or l.endswith("-end") for l in r["reach"]):
                 rep.errors.append("%s/%s VACUOUS: no path reaches the end of the harness (reach=%s, ends=%s)" % (self.name, e.name, r["reach"], r["path_ends"]))
             viol = r["violations"]
             einfo["status"] = "fails" if viol else ("holds" if r["status"] == "held" else "inconclusive")
